@@ -277,7 +277,8 @@ class Oracle:
                 rejected.add(key)
         fired = [f for f in obs.fired]
         failing = [f for f in fired if f["kind"] in FAILING]
-        natural_missing = {k for k in req if (k not in reg or k in rejected) and w.store.current(self._res(k)) is None}
+        natural_missing = {k for k in req if (k not in reg or k in rejected) and
+                           (w.store.current(self._res(k)) is None or w.keys[k]["scheme"] == "nosuch")}
         fail_keys = set()
         fail_res = set()
         for f in failing:
